@@ -11,7 +11,7 @@ from vlib import cN, clist, cpair, log
 
 PID = "C10"
 PROPS = "C10_Props.v"
-TARGETS = ["C10_Props.vo", "C10_Check.vo", "C10_CacheProps.vo"]
+TARGETS = ["C10_Props.vo", "C10_Check.vo", "C10_CacheProps.vo", "C10_Ctl_Props.vo"]
 HARNESS = ["control/common_test.go", "control/c10_test.go", "control/c10ctl_test.go"]
 
 BITMAPS = [0, 1, 2, 3, 5, 6, 1 << 31, 1 << 32, (1 << 31) | 1, 1 << 1023, (1 << 1023) | (1 << 32), 0xffffffff, 1 << 33]
@@ -217,7 +217,11 @@ def gen_ctl_case(rng):
     return {"bitmaps": bitmaps, "bitmaps2": bitmaps2, "max_cache_size": rng.choice([0, 0, 1, 2, 3]), "ops": ops}
 
 
-def run_ctl_batch(sc, binary, cases, tag):
+CTL_SIGS = []
+CTL_STATS = {"glue_cases": 0, "glue_steps": 0, "glue_calls": 0}
+
+
+def run_ctl_batch(sc, binary, cases, tag, record=True):
     inp = sc.path("c10ctl_%s.in" % tag)
     outp = sc.path("c10ctl_%s.out" % tag)
     with open(inp, "w") as f:
@@ -232,6 +236,8 @@ def run_ctl_batch(sc, binary, cases, tag):
     coq_cases = []
     errors = {}
     idx = []
+    glue_terms = []
+    gidx = []
     for i, (c, r) in enumerate(zip(cases, results)):
         if r.get("panic"):
             errors[i] = [(0, 9, "panic: " + r["panic"])]
@@ -263,10 +269,18 @@ def run_ctl_batch(sc, binary, cases, tag):
             continue
         idx.append(i)
         coq_cases.append(cpair(clist(steps), clist([cN(x) for x in sorted(univ)])))
+        g = glue_case_to_coq(c, r, pool)
+        if g is not None:
+            gidx.append(i)
+            glue_terms.append(g)
     text = ("From Coq Require Import List NArith Bool.\nFrom Dae Require Import C10_Spec C10_Model C10_Cache C10_Check.\n"
             "Import ListNotations.\nOpen Scope N_scope.\n" + pool.header() +
             "Definition cases : list (list (list (N * cache_entry) * list (N * N)) * list N) := [\n" + ";\n".join(coq_cases) + "\n].\n"
-            "Definition R := Eval vm_compute in map check_ctl_case cases.\nPrint R.\n")
+            "Definition R := Eval vm_compute in map check_ctl_case cases.\nPrint R.\n"
+            "From Dae Require Import C10_Ctl_Model.\n"
+            "Definition gcases : list ctl_case := [\n" + ";\n".join(glue_terms) + "\n].\n"
+            "Definition G := Eval vm_compute in map check_ctl_glue gcases.\nPrint G.\n"
+            "Definition GS := Eval vm_compute in map ctl_signature gcases.\nPrint GS.\n")
     ok, outtxt = vlib.coq_eval("C10_ctl_%s" % tag, text)
     if not ok:
         return None, "coq evaluation failed: " + outtxt[-3000:]
@@ -277,18 +291,210 @@ def run_ctl_batch(sc, binary, cases, tag):
         return None, "cannot parse coq output (%d vs %d): %s" % (len(per), len(idx), body[:300])
     for i, p in zip(idx, per):
         errors[i] = [(int(x), 2, "") for x in p.split(";") if x]
+    # controller glue: tracker calls / cache contents / kernel map against the model, model against spec
+    g = parse_pair_lists(outtxt, "G", len(gidx))
+    if g is None:
+        return None, "cannot parse coq output of the controller glue check: " + outtxt[-800:]
+    for i, e in zip(gidx, g):
+        have = set((st, code) for (st, code, _) in errors.get(i, []))
+        errors[i] = errors.get(i, []) + [(st, code, "glue") for (st, code) in e if (st, code) not in have]
+    m3 = re.search(r"GS\s*=\s*(.*?)\n\s*:\s*list", outtxt, re.S)
+    if m3 and record:
+        CTL_SIGS.extend(re.findall(r"\((\d+),(\d+),(\d+),(\d+)\)", re.sub(r"\s+", "", m3.group(1))))
+    if record:
+        CTL_STATS["glue_cases"] += len(gidx)
+        CTL_STATS["glue_steps"] += sum(len(results[i]["steps"]) for i in gidx)
+        CTL_STATS["glue_calls"] += sum(len(st["calls"]) for i in gidx for st in results[i]["steps"])
     return errors, None
 
 
-def shrink_ctl(sc, binary, case):
+# ---- controller glue (C10_Ctl_Model.v): tracker calls, cache contents, kernel map per operation ----
+GLUE_CODES = "1 impl<>model tracker calls  2 impl<>spec  3 model<>spec  4 impl<>model cache contents  5 LRU victims not least recently used  6 impl<>model kernel map  9 panic/error"
+
+
+def gen_ctl_case2(rng):
+    """histories biased towards the glue: several scopes of one name sharing addresses, ttl 0 entries,
+    lookups (expiry path), evictDnsRespCacheIfSame with current and stale pointers, optimistic cache,
+    janitor with both passes, reloads"""
+    hosts = rng.sample(HOSTS, rng.randint(1, 3))
+    bitmaps, bitmaps2 = {}, {}
+    for h in HOSTS:
+        fq = (h if h.endswith(".") else h + ".").lower()
+        bitmaps[fq] = "%x" % rng.choice(BITMAPS)
+        bitmaps2[fq] = "%x" % rng.choice(BITMAPS)
+    addrs = rng.sample(ADDRS, rng.randint(1, 4))
+    scopes = ["", "asis", "asis@8.8.8.8:53", "upstream@udp://1.1.1.1:53", "reject"]
+    ops = []
+    tag = 0
+    inserted = []
+    for _ in range(rng.randint(2, 18)):
+        r = rng.random()
+        h = rng.choice(hosts)
+        qt = rng.choice([1, 1, 28])
+        sc = rng.choice(scopes)
+        if r < 0.5 or not inserted:
+            tag += 1
+            ips = [rng.choice(addrs) for _ in range(rng.choice([0, 1, 1, 2, 2, 3]))]
+            op = {"kind": "insert", "host": h, "qtype": qt, "scope": sc, "ips": ips, "ttl": rng.choice([0, 0, 1, 2, 60, 300]), "tag": tag}
+            inserted.append(op)
+            ops.append(op)
+        elif r < 0.6:
+            ops.append({"kind": "remove", "host": h, "qtype": qt, "scope": sc})
+        elif r < 0.66:
+            ops.append({"kind": "family", "host": h, "qtype": qt})
+        elif r < 0.76:
+            src = rng.choice(inserted)
+            ops.append({"kind": "evict", "host": src["host"], "qtype": src["qtype"], "scope": src["scope"],
+                        "ref": src["tag"] if rng.random() < 0.8 else 9999})
+        elif r < 0.84:
+            src = rng.choice(inserted)
+            ops.append({"kind": "lookup", "host": src["host"], "qtype": src["qtype"], "scope": src["scope"]})
+        elif r < 0.94:
+            ops.append({"kind": "janitor", "at_sec": rng.choice([0, 1, 2, 3, 61, 100, 1000])})
+        else:
+            ops.append({"kind": "reload"})
+    case = {"bitmaps": bitmaps, "bitmaps2": bitmaps2, "max_cache_size": rng.choice([0, 0, 1, 2, 3, 5]), "ops": ops}
+    if rng.random() < 0.4:
+        case["optimistic_cache"] = rng.random() < 0.7
+        case["optimistic_cache_ttl"] = rng.choice([0, 1, 2, 60])
+    return case
+
+
+def _ans_term(cN, ans):
+    """["4:1.2.3.4", "6:::1"] -> Coq list of (is A record, 128-bit value)"""
+    out = []
+    for a in ans or []:
+        fam, ip = a.split(":", 1)
+        out.append(cpair(vlib.cbool(fam == "4"), cN(ip_int(ip))))
+    return clist(out)
+
+
+def glue_case_to_coq(case, res, pool):
+    """Coq term of type ctl_case for one controller history and what the implementation did; None if
+    the harness output predates the call recording.  Raises KeyError on a kernel key for no address."""
+    cN = pool.n
+    steps = res["steps"]
+    if any("calls" not in st for st in steps):
+        return None
+    tab = {k: ip_int(s) for s, k in res["keys"].items()}
+    base_ids, scope_ids, fqdn_ids = {}, {"": 0}, {"": 0}
+
+    def ckey(keystr):
+        base, _, scope = keystr.partition("|")
+        b = base_ids.setdefault(base, len(base_ids) + 1)
+        sc = scope_ids.setdefault(scope, len(scope_ids))
+        return b, sc
+
+    def ckey_term(keystr):
+        b, sc = ckey(keystr)
+        return "(Build_ckey %s %s)" % (cN(b), cN(sc))
+
+    def owner_id(keystr):
+        if keystr == "":
+            return 0
+        b, sc = ckey(keystr)
+        return (2 * sc + 1) << b
+
+    def fq(name):
+        return fqdn_ids.setdefault(name, len(fqdn_ids))
+
+    def rules_term(bm):
+        return "(rules_of %s)" % clist([cpair(cN(fq(f)), cN(int(v, 16))) for f, v in sorted(bm.items())])
+
+    times = []
+    for st in steps:
+        times += [l["deadline"] for l in st["live"]] + [l["last"] for l in st["live"]]
+        times += [x for x in (st.get("now", 0), st.get("now2", 0)) if x]
+    t0 = (min(times) - 1000) if times else 0
+
+    def tm(x):
+        return cN(max(x - t0, 0))
+
+    univ = set(ip_int(a) for a in ADDRS)
+    tag_index = {op["tag"]: i for i, op in enumerate(case["ops"]) if op.get("kind") == "insert" and op.get("tag")}
+    prev_live = {}
+    obs = []
+    for i, (op, st) in enumerate(zip(case["ops"], steps)):
+        live = {l["key"]: l for l in st["live"]}
+        kind = op["kind"]
+        if kind == "insert":
+            ans = [("4:" if ipaddress.ip_address(s).version == 4 else "6:") + s for s in op["ips"]]
+            univ.update(ip_int(s) for s in op["ips"])
+            now = live[st["key"]]["last"] if st["key"] in live else t0
+            opt = "(OInsert %s %s %s %s %s)" % (ckey_term(st["key"]), cN(fq(st["fqdn"])), _ans_term(cN, ans), tm(now), cN(op["ttl"]))
+        elif kind == "remove":
+            opt = "(ORemove %s)" % ckey_term(st["key"])
+        elif kind == "family":
+            opt = "(OFamily %s)" % cN(ckey(st["base"])[0])
+        elif kind == "evict":
+            opt = "(OEvictIfSame %s %s)" % (ckey_term(st["key"]), cN(tag_index.get(op.get("ref"), 1 << 40)))
+        elif kind == "lookup":
+            now = st.get("now", 0)
+            before = prev_live.get(st["key"])
+            if before is not None and st.get("now", 0) < before["deadline"] <= st.get("now2", 0):
+                # the entry expired while the call was running: the clock oracle is whichever side the call saw
+                now = st["now2"] if st["key"] not in live else st["now"]
+            opt = "(OLookup %s %s false)" % (ckey_term(st["key"]), tm(now))
+        elif kind == "janitor":
+            victims = [k for k in prev_live if k not in live]
+            opt = "(OJanitor %s %s)" % (tm(st.get("now", 0)), clist([ckey_term(k) for k in sorted(victims)]))
+        elif kind == "reload":
+            opt = "(OReload %s)" % rules_term(case["bitmaps2"] if case.get("bitmaps2") is not None else case["bitmaps"])
+        else:
+            raise ValueError("unknown op kind " + kind)
+        calls = []
+        for c in st["calls"]:
+            if c["kind"] == "update":
+                calls.append("(CInsert %s (Build_cache_entry %s %s))" % (cN(owner_id(c["owner"])), cN(int(c.get("bitmap") or "0", 16)), _ans_term(cN, c.get("ans"))))
+            elif c["kind"] == "remove":
+                calls.append("(CRemove %s)" % cN(owner_id(c["owner"])))
+            else:
+                calls.append("(CRemove 0)")  # the observer was reached outside the production callbacks
+        dump = []
+        for k in sorted(live):
+            l = live[k]
+            for a in l.get("ans") or []:
+                univ.add(ip_int(a.split(":", 1)[1]))
+            dump.append(cpair(ckey_term(k), cpair("(Build_cache_entry %s %s)" % (cN(int(l["bitmap"], 16)), _ans_term(cN, l.get("ans"))),
+                                                  cpair(cN(owner_id(l["owner"])), cpair(tm(l["deadline"]), tm(l["last"]))))))
+        sh = []
+        for k, v in st["shadow"]:
+            if k not in tab:
+                raise KeyError("kernel map holds a key for no address ever inserted: " + k)
+            sh.append(cpair(cN(tab[k]), cN(int(v, 16))))
+        obs.append("(Build_ctl_obs %s %s %s %s)" % (opt, clist(calls), clist(dump), clist(sh)))
+        prev_live = live
+    cfg = "(Build_config %s %s %s)" % (vlib.cbool(bool(case.get("optimistic_cache"))), cN(int(case.get("optimistic_cache_ttl") or 0)), cN(case["max_cache_size"]))
+    return "(Build_ctl_case %s %s\n %s\n %s)" % (cfg, rules_term(case["bitmaps"]), clist(obs), clist([cN(x) for x in sorted(univ)]))
+
+
+def parse_pair_lists(outtxt, name, n):
+    m = re.search(name + r"\s*=\s*(.*?)\n\s*:\s*list", outtxt, re.S)
+    if not m:
+        return None
+    body = re.sub(r"\s+", "", m.group(1))
+    per = re.findall(r"\[((?:\(\d+,\d+\);?)*)\]", body[1:-1])
+    if len(per) != n:
+        return None
+    return [[(int(a), int(b)) for a, b in re.findall(r"\((\d+),(\d+)\)", p)] for p in per]
+
+
+def shrink_ctl(sc, binary, case, codes=None):
+    """codes: keep a failure of one of these error codes (None: any error)"""
+    def hits(c):
+        errs, err = run_ctl_batch(sc, binary, [c], "shrink", record=False)
+        if err is not None:
+            return []
+        return [e for e in errs.get(0, []) if codes is None or e[1] in codes]
+
     def fails(c):
-        errs, err = run_ctl_batch(sc, binary, [c], "shrink")
-        return err is None and bool(errs.get(0))
+        return bool(hits(c))
     ops = list(case["ops"])
-    for n in range(1, len(ops) + 1):
-        if fails(dict(case, ops=ops[:n])):
-            ops = ops[:n]
-            break
+    first = hits(dict(case, ops=ops))
+    if first:
+        n0 = min(e[0] for e in first) + 1   # errors carry the step index: the shortest failing prefix
+        if 0 < n0 < len(ops) and fails(dict(case, ops=ops[:n0])):
+            ops = ops[:n0]
     changed = True
     rounds = 0
     while changed and rounds < 40:
@@ -322,6 +528,8 @@ def replay(path):
             errs, _, err = run_batch(sc, binary, [case], "replay")
         print("case:", json.dumps(case))
         print("result (step, code): codes 1 impl<>model  2 impl<>spec  3 model<>spec  4 impl<>model final state  9 panic/error")
+        if "bitmaps" in case:
+            print("controller stream codes:", GLUE_CODES)
         print(err or errs.get(0))
         return 1 if (err or errs.get(0)) else 0
 
@@ -334,41 +542,88 @@ def main(argv):
     rng = vlib.rng_for(args.seed, PID)
     n_cases = 400 if args.tier == "quick" else 6000
 
-    proof_ok, pinfo = vlib.proof_stage(out, PROPS, TARGETS)
-    ok2, pinfo2 = (True, {"obligations": 0, "discharged": 0, "assumptions": [], "theorems": []})
-    if proof_ok:
-        ok2, pinfo2 = vlib.proof_stage(out, "C10_CacheProps.v", ["C10_CacheProps.vo"])
-        if not ok2:
-            proof_ok, pinfo["failed"] = False, pinfo2["failed"]
+    # Three independent pieces of work overlap: the harness build (go), the proof stage (three coqc runs
+    # capturing Print Assumptions) and, once the binary exists, the two correspondence streams.
+    import threading
+    sc_cm = vlib.Scratch()
+    sc = sc_cm.__enter__()
+    built = {}
+    proofs = {}
 
-    cov = {"obligations": pinfo["obligations"] + pinfo2["obligations"], "discharged": pinfo["discharged"] + pinfo2["discharged"],
-           "checker_cmd": "cd /verif/coq && coq_makefile -f _CoqProject -o Makefile && make -j16 " + " ".join(TARGETS) + " && coqc -Q . Dae C10_Props.v (Print Assumptions captured)",
-           "theorems": pinfo.get("theorems", []) + pinfo2.get("theorems", []),
-           "print_assumptions": pinfo.get("assumptions", []) + pinfo2.get("assumptions", []),
-           "trusted_base": vlib.TRUSTED_BASE_COMMON + [
-               "verif-tagged observer in syncOwner (control/verif_hooks_on.go) reporting the computed batches; the stub build cannot write a real eBPF map",
-               "Go maps modelled as total functions N -> option V; owner strings and 128-bit addresses numbered injectively by the orchestrator via the production key function"]}
-    out.coverage = cov
-    out.assumptions = ["kernel map semantics: batch update = upsert of each pair, batch delete = removal of each key",
-                       "a failing batch call midway (kernel error) and the asynchronous re-sync worker racing a delete are outside the property's quantifier"]
+    def _build():
+        built["res"] = vlib.build_go_test_binary(sc, "control", HARNESS)
 
-    with vlib.Scratch() as sc:
-        binary, blog = vlib.build_go_test_binary(sc, "control", HARNESS)
-        if binary is None:
-            out.violation("build", {"broken": "harness build against /repo failed", "log": blog[-3000:]},
-                          "correspondence harness no longer builds against /repo", no_failing_input=True)
-            cov.update(evaluations=0, distinct_nontrivial=0)
-            return out.finish()
-        corpus = []
-        cdir = os.path.join(vlib.VERIF, "corpus", PID)
-        if os.path.isdir(cdir):
-            for n in sorted(os.listdir(cdir)):
-                corpus.append(json.load(open(os.path.join(cdir, n))))
-        cases = corpus + [gen_case(rng, big=(args.tier == "thorough" and i % 4 == 0)) for i in range(n_cases)]
-        all_err = {}
-        sigs = []
-        shard = 400
-        tie_broken = None
+    def _proofs():
+        empty = {"obligations": 0, "discharged": 0, "assumptions": [], "theorems": []}
+        proof_ok, pinfo = vlib.proof_stage(out, PROPS, TARGETS)
+        pinfo2, pinfo3 = dict(empty), dict(empty)
+        if proof_ok:
+            ok2, pinfo2 = vlib.proof_stage(out, "C10_CacheProps.v", ["C10_CacheProps.vo"])
+            if not ok2:
+                proof_ok, pinfo["failed"] = False, pinfo2["failed"]
+        if proof_ok:
+            ok3, pinfo3 = vlib.proof_stage(out, "C10_Ctl_Props.v", ["C10_Ctl_Props.vo"])
+            if not ok3:
+                proof_ok, pinfo["failed"] = False, pinfo3["failed"]
+        proofs["res"] = (proof_ok, pinfo, pinfo2, pinfo3)
+    bt = threading.Thread(target=_build)
+    bt.start()
+    vlib.coq_make(TARGETS)  # C10_Check.vo must exist before any case file is evaluated; failures are reported by the proof stage
+    pt = threading.Thread(target=_proofs)
+    pt.start()
+
+    def wait_proofs():
+        pt.join()
+        if "res" not in proofs:
+            bad = {"obligations": 0, "discharged": 0, "assumptions": [], "theorems": [], "failed": {"stage": "proof stage crashed"}}
+            return False, bad, dict(bad), dict(bad)
+        return proofs["res"]
+    try:
+        bt.join()
+        return _main_rest(args, out, rng, n_cases, wait_proofs, sc, built.get("res", (None, "harness build thread died")))
+    finally:
+        pt.join()
+        sc_cm.__exit__(None, None, None)
+
+
+def _main_rest(args, out, rng, n_cases, wait_proofs, sc, built):
+    import threading
+    binary, blog = built
+    corpus, ctl_corpus = [], []
+    cdir = os.path.join(vlib.VERIF, "corpus", PID)
+    if os.path.isdir(cdir):
+        for n in sorted(os.listdir(cdir)):
+            (ctl_corpus if n.startswith("ctl_") else corpus).append(json.load(open(os.path.join(cdir, n))))
+    cases = corpus + [gen_case(rng, big=(args.tier == "thorough" and i % 4 == 0)) for i in range(n_cases)]
+    n_ctl = 150 if args.tier == "quick" else 3000
+    n_ctl2 = 100 if args.tier == "quick" else 3000
+    ctl_cases = [gen_ctl_case(rng) for _ in range(n_ctl)]
+    ctl_cases += ctl_corpus + [gen_ctl_case2(rng) for _ in range(n_ctl2)]
+
+    def run_ctl_all(cs, tagp):
+        fails, err_ = [], None
+        for s in range(0, len(cs), 500):
+            cerrs, cerr = run_ctl_batch(sc, binary, cs[s:s + 500], "%s%d" % (tagp, s))
+            if cerr:
+                err_ = cerr
+                break
+            fails += [(s + i, e) for i, e in sorted(cerrs.items()) if e]
+        return fails, err_
+    ctl_first = {}
+
+    def _ctl():
+        try:
+            ctl_first["res"] = run_ctl_all(ctl_cases, "c")
+        except Exception as ex:  # reported as a broken correspondence below
+            ctl_first["res"] = ([], "controller stream crashed: %r" % (ex,))
+    ct = None
+    all_err = {}
+    sigs = []
+    shard = 400
+    tie_broken = None
+    if binary is not None:
+        ct = threading.Thread(target=_ctl)
+        ct.start()
         for s in range(0, len(cases), shard):
             errs, sg, err = run_batch(sc, binary, cases[s:s + shard], "b%d" % s)
             if err:
@@ -378,6 +633,25 @@ def main(argv):
                 if e:
                     all_err[s + i] = e
             sigs += sg
+    proof_ok, pinfo, pinfo2, pinfo3 = wait_proofs()
+    cov = {"obligations": pinfo["obligations"] + pinfo2["obligations"] + pinfo3["obligations"],
+           "discharged": pinfo["discharged"] + pinfo2["discharged"] + pinfo3["discharged"],
+           "checker_cmd": "cd /verif/coq && coq_makefile -f _CoqProject -o Makefile && make -j16 " + " ".join(TARGETS) + " && coqc -Q . Dae C10_Props.v / C10_CacheProps.v / C10_Ctl_Props.v (Print Assumptions captured)",
+           "theorems": pinfo.get("theorems", []) + pinfo2.get("theorems", []) + pinfo3.get("theorems", []),
+           "print_assumptions": pinfo.get("assumptions", []) + pinfo2.get("assumptions", []) + pinfo3.get("assumptions", []),
+           "trusted_base": vlib.TRUSTED_BASE_COMMON + [
+               "verif-tagged observer in syncOwner (control/verif_hooks_on.go) reporting the computed batches; the stub build cannot write a real eBPF map",
+               "Go maps modelled as total functions N -> option V; owner strings and 128-bit addresses numbered injectively by the orchestrator via the production key function"]}
+    out.coverage = cov
+    out.assumptions = ["kernel map semantics: batch update = upsert of each pair, batch delete = removal of each key",
+                       "a failing batch call midway (kernel error) and the asynchronous re-sync worker racing a delete are outside the property's quantifier"]
+
+    if True:
+        if binary is None:
+            out.violation("build", {"broken": "harness build against /repo failed", "log": blog[-3000:]},
+                          "correspondence harness no longer builds against /repo", no_failing_input=True)
+            cov.update(evaluations=0, distinct_nontrivial=0)
+            return out.finish()
         n_eval = len(cases)
         widened = False
         need_widen = (not proof_ok) or tie_broken or any(all(code != 2 and code != 9 for (_, code, _) in e) for e in all_err.values())
@@ -418,25 +692,49 @@ def main(argv):
             what["searched"] = "%d histories (widened=%s) with no impl<>spec disagreement" % (n_eval, widened)
             out.violation("tie", what, "proof obligation or model correspondence no longer checks; no failing input found",
                           no_failing_input=True)
-        # ---- second stream: controller with production callbacks ----
-        n_ctl = 150 if args.tier == "quick" else 3000
-        ctl_cases = [gen_ctl_case(rng) for _ in range(n_ctl)]
-        ctl_fail = []
-        ctl_err = None
-        for s in range(0, len(ctl_cases), 500):
-            cerrs, cerr = run_ctl_batch(sc, binary, ctl_cases[s:s + 500], "c%d" % s)
-            if cerr:
-                ctl_err = cerr
-                break
-            ctl_fail += [(s + i, e) for i, e in sorted(cerrs.items()) if e]
+        # ---- second stream: controller with production callbacks (first pass ran concurrently) ----
+        SPEC_CODES = (2, 9)
+        ct.join()
+        ctl_fail, ctl_err = ctl_first["res"]
+        ctl_spec_fail = [(i, e) for (i, e) in ctl_fail if any(c in SPEC_CODES for (_, c, _) in e)]
+        ctl_tie_fail = [(i, e) for (i, e) in ctl_fail if not any(c in SPEC_CODES for (_, c, _) in e)]
+        ctl_widened = False
+        if ctl_tie_fail and not ctl_spec_fail and not ctl_err:
+            # the implementation left the model (calls / cache contents / kernel map) or the model left the
+            # spec, with no impl<>spec input so far: widen the search 10x before reporting without an input
+            ctl_widened = True
+            extra = [gen_ctl_case2(rng) if j % 2 else gen_ctl_case(rng) for j in range(10 * (n_ctl + n_ctl2))]
+            efail, eerr = run_ctl_all(extra, "w")
+            base_n = len(ctl_cases)
+            ctl_cases += extra
+            if not eerr:
+                ctl_spec_fail = [(base_n + i, e) for (i, e) in efail if any(c in SPEC_CODES for (_, c, _) in e)]
         if ctl_err:
             out.violation("ctl_tie", {"correspondence": ctl_err}, "controller-level correspondence could not be evaluated", no_failing_input=True)
-        elif ctl_fail:
-            i, e = ctl_fail[0]
-            small = shrink_ctl(sc, binary, ctl_cases[i]) if not any(c == 9 for (_, c, _) in e) else ctl_cases[i]
-            out.violation("ctl_impl_vs_spec", {"case": small, "errors": e, "how": "feed case to TestVerifC10Ctl: after the failing step the kernel shadow map differs from the OR of the bitmaps of the live cache entries"},
-                          "controller-level: kernel table differs from the live DNS cache after a cache operation (%d failing histories)" % len(ctl_fail))
-        cov_ctl = {"controller_histories": len(ctl_cases), "controller_failures": len(ctl_fail)}
+        elif ctl_spec_fail:
+            i, e = ctl_spec_fail[0]
+            small = shrink_ctl(sc, binary, ctl_cases[i], codes=(2,)) if not any(c == 9 for (_, c, _) in e) else ctl_cases[i]
+            out.violation("ctl_impl_vs_spec", {"case": small, "errors": e, "codes": GLUE_CODES,
+                                               "how": "feed case to TestVerifC10Ctl: after the failing step the kernel shadow map differs from the OR of the bitmaps of the live cache entries"},
+                          "controller-level: kernel table differs from the live DNS cache after a cache operation (%d failing histories)" % len(ctl_spec_fail))
+        elif ctl_tie_fail:
+            i, e = ctl_tie_fail[0]
+            codes = sorted(set(c for (_, c, _) in e))
+            what = {"correspondence_case": {"case": ctl_cases[i], "errors": e}, "codes": GLUE_CODES,
+                    "broken": ("theorem C10_ctl_mirror (model kernel map <> table of the model cache)" if 3 in codes else
+                               "correspondence of coq/C10_Ctl_Model.v with control/dns_control.go: " +
+                               ", ".join({1: "tracker calls per operation", 4: "cache contents", 5: "LRU victim choice", 6: "kernel map"}.get(c, str(c)) for c in codes)),
+                    "searched": "%d controller histories (widened=%s) with no impl<>spec disagreement" % (len(ctl_cases), ctl_widened)}
+            out.violation("ctl_glue_tie", what, "controller glue: implementation and model (or model and spec) disagree; no history found on which the kernel table differs from the live cache",
+                          no_failing_input=True)
+        gsigs = set(CTL_SIGS)
+        cov_ctl = {"controller_histories": len(ctl_cases), "controller_failures": len(ctl_fail),
+                   "controller_glue": dict(CTL_STATS, distinct_signatures=len(gsigs),
+                                           distinct_nontrivial=len(set(g for g in gsigs if int(g[0]) > 0 and int(g[1]) > 0 and int(g[3]) > 0)),
+                                           rule="signature = (#operations issuing an update call, #operations issuing a remove call, #reloads, #steps with two live scopes of one base key sharing an address); non-trivial = update and remove calls and a shared scoped address",
+                                           comparisons="per operation: impl tracker calls (owner key, update/remove, snapshot) = model calls as sets; impl cache dump (key, bitmap, answers, RouteOwnerKey, deadline, lastAccess) = model cache; impl kernel shadow = model kernel map; model kernel map = table of model cache; impl shadow = table of impl cache",
+                                           oracles="clock (read back from the stored entry / passed to the janitor), rule sets (bitmaps per fqdn), LRU victim set (checked to be least recently used), NeedsBpfUpdate=false on lookup",
+                                           widened_search=ctl_widened)}
         distinct = len(set(sigs))
         nontrivial = len(set(s for s in sigs if int(s[0]) > 0 and int(s[1]) > 0))
         cov.update(evaluations=n_eval, distinct_nontrivial=nontrivial,
